@@ -28,6 +28,7 @@ import ast
 
 from gv import rules
 from gv import symexpr
+from gv.astutil import mangle
 from gv.astutil import AnalysisError
 from gv.astutil import as_update
 from gv.astutil import decorator_names
@@ -1411,7 +1412,49 @@ def check_statistics(ctx: Ctx) -> None:
     ctx.floor("19.7-estimators", 9)
 
 
+def check_bounds_follow_the_law(ctx: Ctx) -> None:
+    """19.9: an OpenTURNS law is built in stages (base law, transformation, truncation), each re-binding the law; the
+    support and range kept by the object (``math_*`` / ``num_*`` bounds) are those of the law AS IT IS at each point
+    where they are consulted -- the truncation checks its bounds against them -- and when the construction ends: after
+    every re-binding of the law, the bounds are set from it again before any method that reads them runs, and before
+    the end."""
+    cls = ctx.index.cls(OTD, "OTDistribution")
+    f = cls.methods["_create_distribution"]
+    con = cname(OTD, "OTDistribution", "_create_distribution")
+    cfg = cfg_of(f)
+    setters = [c for c in walk_body(f) if isinstance(c, ast.Call) and isinstance(c.func, ast.Attribute) and c.func.attr.endswith("__set_bounds") and dotted(c.func.value) == "self" and len(c.args) == 1]
+    ctx.need(setters, "_create_distribution: no call of __set_bounds found")
+    law = dotted(setters[0].args[0])
+    binds = [s_ for s_ in stmts_of(f) if isinstance(s_, ast.Assign) and any(dotted(t) == law for t in s_.targets)]
+    ctx.need(len(binds) >= 2, "_create_distribution: the stages re-binding the law were not found")
+    bound_attrs = {"math_lower_bound", "math_upper_bound", "num_lower_bound", "num_upper_bound"}
+
+    def reads_bounds(m) -> bool:
+        return any(isinstance(x, ast.Attribute) and x.attr in bound_attrs and dotted(x.value) == "self" and isinstance(x.ctx, ast.Load) for x in ast.walk(m))
+
+    readers = []
+    for c in walk_body(f):
+        if isinstance(c, ast.Call) and isinstance(c.func, ast.Attribute) and dotted(c.func.value) == "self":
+            m = cls.methods.get(c.func.attr) or cls.methods.get(mangle(cls.name, c.func.attr))
+            if m is not None and reads_bounds(m):
+                readers.append(c)
+    set_nodes = {cfg.node_of(rules.enclosing_stmt(f, c)) for c in setters if dotted(c.args[0]) == law}
+    bind_nodes = {cfg.node_of(b) for b in binds}
+    n = 0
+    for b in binds:
+        bn = cfg.node_of(b)
+        targets = [(cfg.node_of(rules.enclosing_stmt(f, r)), f"`{norm_stmt(r, 50)}` reads them") for r in readers] + [(cfg.exit, "the construction ends")]
+        for tn, why in targets:
+            if tn == bn or not cfg.reachable(bn, tn):
+                continue
+            n += 1
+            esc = cfg.path(bn, tn, (set_nodes | bind_nodes) - {bn, tn})
+            ctx.ob("19.9-bounds-follow", con, esc is None, f"after `{norm_stmt(b, 60)}` the bounds kept by the object are still those of the previous stage when {why}: admissible truncation bounds are checked against the support of the law before its transformation", node=b, stmt=f"bounds set again after `{norm_stmt(b, 40)}` before {'the end' if tn == cfg.exit else 'they are read'}")
+    ctx.floor("19.9-bounds-follow", 4)
+
+
 def run(ctx: Ctx) -> None:
+    check_bounds_follow_the_law(ctx)
     check_forwarding(ctx)
     check_transform_pair(ctx)
     check_delegation(ctx)
